@@ -6,7 +6,9 @@ From NS Require Import Base.Res Mem.Buffer Mem.RemoveNan MinMax.MinMax MinMax.Sk
 Local Open Scope Z_scope.
 
 Definition nank : Z := -777777777.
-Definition znan (x : Z) : bool := Z.eqb x nank.
+(* the missing keys: nank and the fifteen keys below it (distinct NaN bit patterns of the float
+   types: sign and payload variants; Option types only use nank) *)
+Definition znan (x : Z) : bool := Z.leb (nank - 15) x && Z.leb x nank.
 
 Definition enc_view (v : view1) : list Z :=
   (* offsets of empty views are not observable *)
